@@ -133,6 +133,14 @@ theorem tcp_instance_partial (s : TcpSig) (o : TcpObs) (ho : TtlWF o.ittl) (hs :
 
 example : TcpInst obsLinux sigLinux := by decide
 
+/-- The TTL clause on its own: a signature TTL `T` is matched at distance 0 by the raw value `T`, by
+the guess `T+?`, and by `(T-d)+d` for *every* hop count `d ≤ 30` (all `T ≤ 255`, `d ≤ T`). -/
+theorem ttl_instance_all_hops (T d : Nat) (hT : T ≤ 255) (hd : d ≤ 30) (hdT : d ≤ T) :
+    distTtl (.distance (T - d) d) (.value T) = some 0 ∧ distTtl (.value T) (.value T) = some 0 ∧
+    distTtl (.guess T) (.value T) = some 0 := by
+  refine ⟨distTtl_inst _ _ ?_ ?_ ?_, distTtl_inst _ _ ?_ ?_ ?_, distTtl_inst _ _ ?_ ?_ ?_⟩ <;>
+    simp only [TtlWF, TtlInst, maxHops] <;> omega
+
 theorem kf_instance_witness : ¬ FullTcpInstance := fun h =>
   absurd (h { sigLinux with wsize := .mod 1024 } { obsLinux with wsize := .mod 4096 }
     (by decide) (by decide) (by decide) (by decide)).1 (by decide)
